@@ -572,8 +572,17 @@ class PolarsModel(data_algebra.data_model.DataModel):
             "concat": lambda *args: pl.concat_str(args),
             "fmax": lambda *args: pl.max_horizontal(args),
             "fmin": lambda *args: pl.min_horizontal(args),
-            "maximum": lambda *args: pl.max_horizontal(args),
-            "minimum": lambda *args: pl.min_horizontal(args),
+            # maximum / minimum propagate missing values (fmax / fmin ignore them)
+            "maximum": lambda *args: pl.when(
+                pl.any_horizontal([a.is_null() for a in args])
+            )
+            .then(None)
+            .otherwise(pl.max_horizontal(args)),
+            "minimum": lambda *args: pl.when(
+                pl.any_horizontal([a.is_null() for a in args])
+            )
+            .then(None)
+            .otherwise(pl.min_horizontal(args)),
             "+": _reduce_plus,
             "*": _reduce_times,
             "and": _reduce_and,
